@@ -96,7 +96,7 @@ def r1_divisor(ctx):
                         for P in range(2, 14):
                             env = {NI: N, NP: P, NI.replace("'", '"'): N, NP.replace("'", '"'): P}
                             try:
-                                per = eval_guard(v, env, hook)
+                                per = eval_guard(Inliner(f.node).resolve(v), env, hook)
                                 env[full] = per
                                 refused = any(bool(eval_guard(cfg.stmt[h].test, env, hook)) == lab for h, lab, r in refusing)
                             except (GuardUnsupported, ZeroDivisionError, TypeError) as e:
@@ -217,10 +217,10 @@ def r2_temperature(ctx):
                 for T0 in (Fraction(3, 2), Fraction(2), Fraction(10)):
                     env = {f"{A}['n_iter']": N, f"{A}['n_plateau']": P, f"{A}['initial_temperature']": T0}
                     try:
-                        per = eval_guard(p_as[0].value, env, hook)
+                        per = eval_guard(Inliner(ini.node).resolve(p_as[0].value), env, hook)
                         if per < 1 or per * (P - 1) > N:
                             continue  # refused, or reported by C19.R1
-                        dec = eval_guard(icfg.stmt[d_as[0]].value, env, hook)
+                        dec = eval_guard(Inliner(ini.node).resolve(icfg.stmt[d_as[0]].value), env, hook)
                     except (GuardUnsupported, ZeroDivisionError, TypeError) as e:
                         undec = undec or f"{type(e).__name__}: {e}"
                         continue
@@ -450,6 +450,10 @@ def rules(ctx):
 A = "src/leaspy/algo/algo_with_annealing.py"
 GF = "src/leaspy/samplers/gibbs.py"
 VARIANTS = [
+    V("silent-period-through-a-local", "src/leaspy/algo/algo_with_annealing.py", "        self._annealing_period = self.algo_parameters[\"annealing\"][\"n_iter\"] // (\n            self.algo_parameters[\"annealing\"][\"n_plateau\"] - 1\n        )\n",
+      "        n_steps = self.algo_parameters[\"annealing\"][\"n_plateau\"] - 1\n        self._annealing_period = self.algo_parameters[\"annealing\"][\"n_iter\"] // n_steps\n", None),
+    V("plateau-clamped-to-one", "src/leaspy/algo/algo_with_annealing.py", "        self._annealing_period = self.algo_parameters[\"annealing\"][\"n_iter\"] // (\n            self.algo_parameters[\"annealing\"][\"n_plateau\"] - 1\n        )\n",
+      "        self._annealing_period = max(1, self.algo_parameters[\"annealing\"][\"n_iter\"] // (\n            self.algo_parameters[\"annealing\"][\"n_plateau\"] - 1\n        ))\n", "C19.R1"),
     V("period-unguarded", A, """        if self._annealing_period < 1:
             raise LeaspyAlgoInputError(
                 "Your `annealing.n_iter` should be at least `annealing.n_plateau` - 1, "
